@@ -145,3 +145,7 @@ mod tests {
         }
     ];
 }
+
+#[cfg(kani)]
+#[path = "/verif/kani/std_mod.rs"]
+mod kani_verif;
